@@ -53,13 +53,14 @@ def entity_snapshot(mdib) -> dict:
 
 
 class PairRunner:
-    def __init__(self, fixture: str, async_mgr: bool = False, prop: str = P, check_notifications: bool = True):
+    def __init__(self, fixture: str, async_mgr: bool = False, prop: str = P, check_notifications: bool = True,
+                 instance_id: int | None = 1):
         from sdc11073 import observableproperties as properties
         park_role_workers()
         L.reset_network()
         self.prop = prop
         self.inv = MP.inventory(fixture)
-        self.world = W.World(W.fixture(fixture), async_mgr=async_mgr)
+        self.world = W.World(W.fixture(fixture), async_mgr=async_mgr, instance_id=instance_id)
         self.consumer, self.cmdib = self.world.add_consumer()
         self.interp = MP.Interp(self.world.mdib, self.inv, provider=self.world.provider)
         self.fired = []
@@ -175,7 +176,7 @@ class PairRunner:
 
 def run_program(case, prop=P, stop_at_first=True, check_notifications=True):
     r = PairRunner(case['fixture'], async_mgr=case.get('async', False), prop=prop,
-                   check_notifications=check_notifications)
+                   check_notifications=check_notifications, instance_id=case.get('instance_id', 1))
     findings = []
     raised = set()
     try:
@@ -196,7 +197,8 @@ def run_program(case, prop=P, stop_at_first=True, check_notifications=True):
 
 def case_fn(ctx, case, prop=P):
     findings, nontrivial, kinds, raised = run_program(case, prop=prop)
-    ctx.case(case, nontrivial, 'prog', classes=tuple(kinds) + (('async',) if case.get('async') else ('sync',)))
+    ctx.case(case, nontrivial, 'prog', classes=tuple(kinds) + (('async',) if case.get('async') else ('sync',)) + (
+        f'instance_id={case.get("instance_id", 1)}',))
     for sig in raised:
         ctx.count(f'op-raised/{sig}')
     return findings
@@ -229,7 +231,8 @@ def shard_programs(ctx, fixture, n, max_ops, prop=P, index_bias=False, async_mgr
         if biased is not None:
             prog = st.tuples(prog, st.lists(biased, min_size=1, max_size=4), st.integers(0, 10)).map(
                 lambda t: (t[0][:t[2]] + t[1] + t[0][t[2]:])[:max_ops + 4])
-    strat = prog.map(lambda p: {'fixture': fixture, 'prog': p, 'async': async_mgr})
+    strat = st.tuples(prog, st.sampled_from([1, 1, 0, None, 4294967295])).map(
+        lambda t: {'fixture': fixture, 'prog': t[0], 'async': async_mgr, 'instance_id': t[1]})
     R.hyp_campaign(ctx, f'prog:{fixture}:{"async" if async_mgr else "sync"}', strat,
                    lambda c: case_fn(ctx, c, prop), n, shrink_s=30 if ctx.tier == 'quick' else 200)
 
